@@ -65,7 +65,7 @@ def gen_config(rng, profile="plain", opts=None):
     for k in range(n_ses):
         ses = {"sessionName": k, "iterationSteps": opts.get("steps", rng.choice([2, 4, 6, 10])),
                "withOrderPlacement": rng.random() < 0.85, "withOrderExecution": rng.random() < 0.7,
-               "withPrint": True,
+               "withPrint": rng.random() < 0.7,
                "maxNormalOrders": rng.choice([0, 1, 2, 3, 10]),
                "maxHighFrequencyOrders": rng.choice([0, 1, 2, 5]),
                "highFrequencySubmitRate": rng.choice([0.0, 1.0, 1.0, 0.5, 0.3])}
